@@ -160,7 +160,7 @@ func c01Gen(tier string, rng *rand.Rand) []c01Case {
 	c01InitFns()
 	var out []c01Case
 	cfgs := append([]c01Cfg(nil), c01QuickCfgs...)
-	per := 1
+	per := 2
 	if tier == "thorough" {
 		per = 6
 		for i := 0; i < 10; i++ {
